@@ -376,7 +376,11 @@ POOL_RED = ['avg::{(+/x)%#x}', 'avg([1 2 3])', 'avg([])', 'avg(a)', 'sm::{,+/a}'
 # are shared objects (two names, one object) and are updated in place
 POOL_DICT = ['f3::{:{[1 2]}}', 'dd::f3()', 'dd,[3 4]', 'f3()', 'dd', 'ee::dd', 'dd,[5 6]', 'ee', 'e2:::{[7 8]}', 'e2,[9 0]', ':{[7 8]}',
              'e2', 'g3::{[t];t:::{[1 1]};t,[x x];t}', 'g3(2)', 'g3(3)', 'dd?1', 'ee?5']
-POOLS = [POOL_DATA, POOL_VIEW, POOL_AMEND, POOL_FN, POOL_EXPR, POOL_OBJ, POOL_RED, POOL_DICT]
+# comparisons / arithmetic nested in function bodies, applied to numbers first and then to lists of mixed depth (object arrays)
+POOL_MIX = ['k::{,x=y}', 'k(1;2)', 'k([1 2];[1 3])', 'k([[1] 2];[[1] 2])', 'k([[1] 2];[[1] 3])', 'k(a;a)', 'a::[[1] 2]', 'a::[[1] [2 3]]',
+            'k2::{(x<y),z}', 'k2(1;2;3)', 'k2([[1] 2];[[3] 4];0)', 'k3::{#,/x<y}', 'k3(1;2)', 'k3([[1] 2];[[3] 4])', 'k4::{,x*a}', 'k4(2)', 'k4([[1] 2])',
+            'a::3', 'a::[1 2]']
+POOLS = [POOL_DATA, POOL_VIEW, POOL_AMEND, POOL_FN, POOL_EXPR, POOL_OBJ, POOL_RED, POOL_DICT, POOL_MIX]
 
 DIRECTED = [
     ['f::{1,x*y}', 'f(2;3)', 'f("ab";3)'],
@@ -392,6 +396,8 @@ DIRECTED = [
     ['f::{[1 2 3]}', 'c::f()', 'd::c:=9,0', 'f()'],
     ['a::[]', '+/a', 'a::[1 2]', '+/a', 'a::[]', '+/a'],
     ['avg::{(+/x)%#x}', 'avg([1 2 3])', 'avg([])'],
+    ['k::{,x=y}', 'k(1;2)', 'k([[1] 2];[[1] 2])', 'k([[1] 2];[[1] 3])'],
+    ['k2::{(x<y),z}', 'k2(1;2;3)', 'k2([[1] 2];[[3] 4];0)', 'a::2', 'k4::{,x*a}', 'k4(3)', 'a::[[1] 2]', 'k4(3)', 'k4([[1] 2])'],
     ['sm::{,+/a}', 'a::[1 2 3]', 'sm()', 'a::[]', 'sm()', 'a::[7 8]', 'a::2_a', 'sm()'],
     ['w::{0+/x}', 'ff::{(w(x)),+/x}', 'ff([1 2])', 'ff([])'],
     ['m::[["p" "q"] ["r" "s"]]', 'd::m:-"z",[0 1]', 'm', 'c::1_m', 'd::c:-:foo,[0 0]', 'm', 'c'],
